@@ -526,3 +526,68 @@ Example ex_mode_alias :
   option_map (map (jget "format")) (match expand_modes [m1; m2] with Ok l => Some l | Err _ => None end)
     = Some [Some (JStr "mode 1"); Some (JStr "mode 2"); Some (JStr "m1 bis"); Some (JStr "m1 ter")].
 Proof. vm_compute. split; reflexivity. Qed.
+
+(* ================= translator tie: the converter sources are the model (Gen/YangGen.v is regenerated from
+   gnpy/tools/yang_convert_utils.py, convert_legacy_yang.py and json_io.py by every run) ================= *)
+From Verif Require Import Gen.YangGen Proofs.YangGen.
+
+Theorem C18_source_convert_degree : forall doc, g_convert_degree doc = convert_degree doc.
+Proof. exact gen_convert_degree. Qed.
+Print Assumptions C18_source_convert_degree.
+Theorem C18_source_convert_back_degree : forall doc, g_convert_back_degree doc = convert_back_degree doc.
+Proof. exact gen_convert_back_degree. Qed.
+Print Assumptions C18_source_convert_back_degree.
+Theorem C18_source_convert_design_band : forall doc, g_convert_design_band doc = convert_design_band doc.
+Proof. exact gen_convert_design_band. Qed.
+Print Assumptions C18_source_convert_design_band.
+Theorem C18_source_convert_back_design_band : forall doc, g_convert_back_design_band doc = convert_back_design_band doc.
+Proof. exact gen_convert_back_design_band. Qed.
+Print Assumptions C18_source_convert_back_design_band.
+Theorem C18_source_convert_loss_coeff_list : forall doc, g_convert_loss_coeff_list doc = convert_loss_coeff_list doc.
+Proof. exact gen_convert_loss_coeff_list. Qed.
+Print Assumptions C18_source_convert_loss_coeff_list.
+Theorem C18_source_convert_back_loss_coeff_list : forall doc, g_convert_back_loss_coeff_list doc = convert_back_loss_coeff_list doc.
+Proof. exact gen_convert_back_loss_coeff_list. Qed.
+Print Assumptions C18_source_convert_back_loss_coeff_list.
+Theorem C18_source_convert_raman_coef : forall doc, g_convert_raman_coef doc = convert_raman_coef doc.
+Proof. exact gen_convert_raman_coef. Qed.
+Print Assumptions C18_source_convert_raman_coef.
+Theorem C18_source_convert_back_raman_coef : forall doc, g_convert_back_raman_coef doc = convert_back_raman_coef doc.
+Proof. exact gen_convert_back_raman_coef. Qed.
+Print Assumptions C18_source_convert_back_raman_coef.
+Theorem C18_source_convert_nf_coef : forall doc, g_convert_nf_coef doc = convert_nf_coef doc.
+Proof. exact gen_convert_nf_coef. Qed.
+Print Assumptions C18_source_convert_nf_coef.
+Theorem C18_source_convert_back_nf_coef : forall doc, g_convert_back_nf_coef doc = convert_back_nf_coef doc.
+Proof. exact gen_convert_back_nf_coef. Qed.
+Print Assumptions C18_source_convert_back_nf_coef.
+Theorem C18_source_convert_nf_fit_coef : forall doc, g_convert_nf_fit_coef doc = convert_nf_fit_coef doc.
+Proof. exact gen_convert_nf_fit_coef. Qed.
+Print Assumptions C18_source_convert_nf_fit_coef.
+Theorem C18_source_convert_back_nf_fit_coef : forall doc, g_convert_back_nf_fit_coef doc = convert_back_nf_fit_coef doc.
+Proof. exact gen_convert_back_nf_fit_coef. Qed.
+Print Assumptions C18_source_convert_back_nf_fit_coef.
+Theorem C18_source_convert_delta_power_range : forall doc, g_convert_delta_power_range doc = convert_delta_power_range doc.
+Proof. exact gen_convert_delta_power_range. Qed.
+Print Assumptions C18_source_convert_delta_power_range.
+Theorem C18_source_convert_back_delta_power_range : forall doc,
+  g_convert_back_delta_power_range doc = convert_back_delta_power_range doc.
+Proof. exact gen_convert_back_delta_power_range. Qed.
+Print Assumptions C18_source_convert_back_delta_power_range.
+(* the dispatchers: every branch test and the order of the calls in every branch (remove_namespace_context first) *)
+Theorem C18_source_legacy_to_yang : forall doc, g_legacy_to_yang doc = legacy_to_yang doc.
+Proof. exact gen_legacy_to_yang. Qed.
+Print Assumptions C18_source_legacy_to_yang.
+Theorem C18_source_yang_to_legacy : forall doc, g_yang_to_legacy doc = yang_to_legacy doc.
+Proof. exact gen_yang_to_legacy. Qed.
+Print Assumptions C18_source_yang_to_legacy.
+(* the other_name loops *)
+Theorem C18_source_expand_edfa : forall e, g_expand_edfa e = expand_edfa e.
+Proof. exact gen_expand_edfa. Qed.
+Print Assumptions C18_source_expand_edfa.
+Theorem C18_source_expand_trx : forall e, g_expand_trx e = expand_trx e.
+Proof. exact gen_expand_trx. Qed.
+Print Assumptions C18_source_expand_trx.
+Theorem C18_source_expand_modes : forall ms, g_expand_modes ms = expand_modes ms.
+Proof. exact gen_expand_modes. Qed.
+Print Assumptions C18_source_expand_modes.
